@@ -66,6 +66,12 @@ struct Rec {
     /// number of synonym group ids in column 18 (2 = the usual `1/22`)
     syn_n: usize,
     splits_concat: bool,
+    /// CSV text of the surface when it is not the decoded value held in `surface` (escapes); columns 0, 4 and 12 use it
+    surface_text: Option<String>,
+    /// column 11 (default ヨミ), column 12 (default: the surface), one POS component replaced
+    reading: Option<String>,
+    norm: Option<String>,
+    pos_over: Option<(usize, String)>,
 }
 #[derive(Clone, Debug)]
 enum Base {
@@ -91,6 +97,52 @@ fn surface_key(s: &str) -> u64 {
         h = h.wrapping_mul(0x100000001b3);
     }
     h
+}
+
+/// what parse.rs::unescape makes of a CSV field: \\uXXXX and \\u{X..} (1..6 hex digits) are decoded, anything else stays as it
+/// is; Err for a code point that is no character (surrogates, above U+10FFFF)
+fn decode_escapes(s: &str) -> Result<String, ()> {
+    let cs: Vec<char> = s.chars().collect();
+    let mut out = String::new();
+    let mut i = 0;
+    while i < cs.len() {
+        if cs[i] == '\\' && i + 1 < cs.len() && cs[i + 1] == 'u' {
+            let mut j = i + 2;
+            let mut hex = String::new();
+            let mut matched = false;
+            if j < cs.len() && cs[j] == '{' {
+                j += 1;
+                while j < cs.len() && cs[j].is_ascii_hexdigit() && hex.len() < 6 {
+                    hex.push(cs[j]);
+                    j += 1;
+                }
+                if !hex.is_empty() && j < cs.len() && cs[j] == '}' {
+                    j += 1;
+                    matched = true;
+                }
+            }
+            if !matched {
+                hex.clear();
+                j = i + 2;
+                while j < cs.len() && cs[j].is_ascii_hexdigit() && hex.len() < 4 {
+                    hex.push(cs[j]);
+                    j += 1;
+                }
+                matched = hex.len() == 4;
+            }
+            if matched {
+                match char::from_u32(u32::from_str_radix(&hex, 16).unwrap()) {
+                    Some(c) => out.push(c),
+                    None => return Err(()),
+                }
+                i = j;
+                continue;
+            }
+        }
+        out.push(cs[i]);
+        i += 1;
+    }
+    Ok(out)
 }
 
 fn surface_of(i: usize) -> String {
@@ -147,10 +199,19 @@ impl Case {
     fn lexicon_text(&self) -> String {
         let mut s = String::new();
         for r in &self.recs {
-            let mut cols: Vec<String> = vec![r.surface.clone(), num_text(&r.left), num_text(&r.right), num_text(&r.cost), r.surface.clone()];
-            cols.extend(POS[r.pos % 3].split(',').map(|x| x.to_string()));
-            cols.push(if r.strings == StrKind::TooLong { "ア".repeat(11000) } else { "ヨミ".to_string() });
-            cols.push(if r.strings == StrKind::BadEscape { "x\\u{110000}".to_string() } else { r.surface.clone() });
+            let s0 = r.surface_text.clone().unwrap_or_else(|| r.surface.clone());
+            let mut cols: Vec<String> = vec![s0.clone(), num_text(&r.left), num_text(&r.right), num_text(&r.cost), s0.clone()];
+            let mut pcs: Vec<String> = POS[r.pos % 3].split(',').map(|x| x.to_string()).collect();
+            if let Some((k, v)) = &r.pos_over {
+                pcs[*k % 6] = v.clone();
+            }
+            cols.extend(pcs);
+            cols.push(match &r.reading {
+                Some(x) => x.clone(),
+                None if r.strings == StrKind::TooLong => "ア".repeat(11000),
+                None => "ヨミ".to_string(),
+            });
+            cols.push(if r.strings == StrKind::BadEscape { "x\\u{110000}".to_string() } else { r.norm.clone().unwrap_or(s0) });
             cols.push(match &r.dic_form {
                 None => "*".to_string(),
                 Some(w) => wid_text(w),
@@ -215,7 +276,7 @@ impl Case {
         };
         let recs = clist(self.recs.iter().map(|r| {
             format!(
-                "mkRec {} {} {} {} {} {} {} {} {} {} {} {} {} {} {}",
+                "mkRec {} {} {} {} {} {} {} {} {} {} {} {} {} {} {} {}",
                 cz(r.ncols as i64),
                 cbool(r.strings == StrKind::Ok),
                 cbool(r.surface.is_empty()),
@@ -236,7 +297,8 @@ impl Case {
                 cbool(r.syn_ok || !r.has_syn),
                 cbool(r.splits_concat),
                 cbool(r.surface.contains('\0')),
-                cn(surface_key(&r.surface))
+                cn(surface_key(&r.surface)),
+                cbool(r.surface_text.as_deref().unwrap_or(&r.surface).contains('\0'))
             )
         }));
         format!("(mkInput {} {})", base, recs)
@@ -539,6 +601,77 @@ fn index_audit(env: &Env, user: bool, bytes: &[u8]) -> Option<String> {
     None
 }
 
+/// every string of every row comes back from the compiled dictionary as it was written (after decoding its escapes): the
+/// headword (WordInfo::surface), the byte length of the surface (head_word_length), reading, normalised form and the six POS
+/// components.  Only for lexicons rendered by this file (no quoted fields), one row per line.
+fn strings_audit(env: &Env, user: bool, bytes: &[u8], lexicon: &str) -> Option<String> {
+    use sudachi::dic::word_id::WordId;
+    let mut rows: Vec<Vec<String>> = vec![];
+    for l in lexicon.split('\n').filter(|l| !l.is_empty()) {
+        let c: Vec<&str> = l.split(',').collect();
+        if c.len() < 13 {
+            return None;
+        }
+        let mut d = vec![];
+        for k in [0usize, 4, 5, 6, 7, 8, 9, 10, 11, 12] {
+            match decode_escapes(c[k]) {
+                Ok(x) => d.push(x),
+                Err(_) => return None,
+            }
+        }
+        rows.push(d);
+    }
+    let cfg = config(env);
+    let r = catch(|| {
+        let mut data = SudachiDicData::new(Storage::Owned(if user { env.sys_bytes.clone() } else { bytes.to_vec() }));
+        if user {
+            data.add_user(Storage::Owned(bytes.to_vec()));
+        }
+        JapaneseDictionary::from_cfg_storage(&cfg, data)
+    });
+    let dict = match r {
+        Ok(Ok(d)) => d,
+        _ => return None, // reported by load_and_analyse
+    };
+    let total = dict.lexicon().size() as usize;
+    let (dic, n) = if user { (1u8, total - SYS_WORDS.min(total)) } else { (0u8, total) };
+    if n != rows.len() {
+        return Some(format!("the lexicon has {} rows, the compiled dictionary {} words", rows.len(), n));
+    }
+    let show = |x: &str| -> String {
+        let units = x.encode_utf16().count();
+        if x.chars().count() > 24 { format!("{:?}.. ({} UTF-16 code units, {} bytes)", x.chars().take(12).collect::<String>(), units, x.len()) } else { format!("{:?} ({} UTF-16 code units, {} bytes)", x, units, x.len()) }
+    };
+    for (i, row) in rows.iter().enumerate() {
+        let wid = WordId::new(dic, i as u32);
+        let info = match catch(|| dict.lexicon().get_word_info(wid)) {
+            Ok(Ok(x)) => x,
+            Ok(Err(e)) => return Some(format!("the word info of row {} cannot be read back: {}", i, e)),
+            Err(p) => return Some(format!("reading back the word info of row {} panicked: {}", i, p)),
+        };
+        let pos: Vec<String> = dict.grammar().pos_list.get(info.pos_id() as usize).cloned().unwrap_or_default();
+        let got: Vec<(&str, String, &String)> = vec![
+            ("headword", info.surface().to_string(), &row[1]),
+            ("reading", info.reading_form().to_string(), &row[8]),
+            ("normalized form", info.normalized_form().to_string(), &row[9]),
+        ];
+        for (what, g, want) in got {
+            if &g != want {
+                return Some(format!("the {} of row {} was written as {} and reads back as {}", what, i, show(want), show(&g)));
+            }
+        }
+        if info.head_word_length() as usize != row[0].len() {
+            return Some(format!("the surface of row {} has {} bytes, the compiled dictionary says {}", i, row[0].len(), info.head_word_length()));
+        }
+        for k in 0..6 {
+            if pos.get(k) != Some(&row[2 + k]) {
+                return Some(format!("POS component {} of row {} was written as {} and reads back as {}", k + 1, i, show(&row[2 + k]), pos.get(k).map(|x| show(x)).unwrap_or_else(|| "nothing".to_string())));
+            }
+        }
+    }
+    None
+}
+
 /// two dictionaries are the same up to the creation time stored in the header (bytes 8..16)
 fn same_dict(a: &[u8], b: &[u8]) -> bool {
     a.len() == b.len() && (a.len() < 16 || (a[..8] == b[..8] && a[16..] == b[16..]))
@@ -655,7 +788,9 @@ fn probes(case: &Case) -> Vec<String> {
     let mut all = String::new();
     let mut v = vec![];
     for r in case.recs.iter().take(40) {
-        all.push_str(&r.surface);
+        if r.surface.len() <= 3000 {
+            all.push_str(&r.surface);
+        }
         v.push(r.surface.clone());
     }
     v.truncate(12);
@@ -700,6 +835,8 @@ fn run_texts(sink: &mut Sink, env: &Env, case: Option<&Case>, matrix: Option<Str
         }
         None => json!({"kind": "c06-raw", "shape": shape, "matrix": matrix, "lexicon": lexicon, "known_class": ""}),
     };
+    // success => every string of every row reads back as written
+    let strings_back = if rendered_here && b.status == "SOk" && lr.ok { strings_audit(env, user, &b.bytes, &lexicon) } else { None };
     // most frequent surface among the indexed rows (only for lexicons rendered by this file)
     let mut most: Option<(String, usize)> = None;
     if rendered_here {
@@ -726,7 +863,7 @@ fn run_texts(sink: &mut Sink, env: &Env, case: Option<&Case>, matrix: Option<Str
     let id = match case {
         Some(c) => {
             // the known finding is excluded from the predicate only for the analysis clause; everything else is still compared
-            let analyses = lr.ok || (mismatch && lr.msg.contains("analysis"));
+            let analyses = (lr.ok && strings_back.is_none()) || (mismatch && lr.msg.contains("analysis"));
             let h = env.hdr.borrow().clone();
             let hdr_bytes: Vec<u8> = b.bytes.iter().take(272).cloned().collect();
             let time = match h.time {
@@ -770,6 +907,12 @@ fn run_texts(sink: &mut Sink, env: &Env, case: Option<&Case>, matrix: Option<Str
             if *k > 127 {
                 sink.fail(id, &format!("compilation reported success for a lexicon in which {} indexed rows have the surface {:?}: the ids of one surface form one array of the word-id table, which the format limits to 127 elements", k, s), "");
             }
+        }
+        if let Some(what) = &strings_back {
+            if verbose {
+                println!("  strings read back: {}", what);
+            }
+            sink.fail(id, &format!("compilation reported success, but {}", what), "");
         }
         if rendered_here {
             if let Some(what) = index_audit(env, user, &b.bytes) {
@@ -1010,10 +1153,22 @@ fn parse_back_lexicon(t: &str) -> Vec<Rec> {
         let c: Vec<&str> = l.split(',').collect();
         let g = |i: usize| -> &str { c.get(i).copied().unwrap_or("") };
         let pos = POS.iter().position(|p| p.split(',').collect::<Vec<_>>() == c.get(5..11).map(|x| x.to_vec()).unwrap_or_default()).unwrap_or(0);
+        let text_cols: Vec<&str> = std::iter::once(g(0)).chain((4..13).map(|i| g(i))).collect();
+        let decoded0 = decode_escapes(g(0));
         Rec {
             ncols: c.len(),
-            strings: if g(11).len() > 32767 { StrKind::TooLong } else if g(12).contains("\\u{110000}") { StrKind::BadEscape } else { StrKind::Ok },
-            surface: g(0).to_string(),
+            strings: if text_cols.iter().any(|x| x.len() > 32767) {
+                StrKind::TooLong
+            } else if text_cols.iter().any(|x| decode_escapes(x).is_err()) {
+                StrKind::BadEscape
+            } else {
+                StrKind::Ok
+            },
+            surface: decoded0.clone().unwrap_or_else(|_| g(0).to_string()),
+            surface_text: match &decoded0 { Ok(d) if d == g(0) => None, _ => Some(g(0).to_string()) },
+            reading: if c.len() > 11 && g(11) != "ヨミ" { Some(g(11).to_string()) } else { None },
+            norm: if c.len() > 12 && g(12) != g(0) { Some(g(12).to_string()) } else { None },
+            pos_over: None,
             left: num(g(1)),
             right: num(g(2)),
             cost: num(g(3)),
@@ -1285,6 +1440,10 @@ fn good_rec(i: usize, nl: i64, nr: i64, rng: &mut Rng) -> Rec {
         has_syn: true,
         syn_n: 2,
         splits_concat: true,
+        surface_text: None,
+        reading: None,
+        norm: None,
+        pos_over: None,
     }
 }
 
@@ -1387,7 +1546,7 @@ fn mutate_rec(recs: &mut Vec<Rec>, nl: i64, nr: i64, user: bool, rng: &mut Rng) 
     let n = recs.len();
     let i = rng.below(n as u64) as usize;
     let r = &mut recs[i];
-    match rng.below(14) {
+    match rng.below(16) {
         0 => {
             r.ncols = 1 + rng.below(17) as usize;
             "row_truncated"
@@ -1499,6 +1658,63 @@ fn mutate_rec(recs: &mut Vec<Rec>, nl: i64, nr: i64, user: bool, rng: &mut Rng) 
                 r.surface = if rng.chance(1, 2) { format!("\u{0}{}", r.surface) } else { format!("{}\u{0}あ", r.surface) };
                 "nul_in_surface"
             }
+        }
+        13 => {
+            // a string at a boundary of the length prefix (one byte below 127 code units, 15 bits at most)
+            let n = *rng.pick(&[126usize, 127, 128, 129, 255, 256, 257, 1000, 32767, 32768]);
+            let text = match rng.below(3) {
+                0 => "a".repeat(n),
+                1 if n <= 10922 => "ア".repeat(n),
+                _ => format!("{}{}", "𠮷".repeat(n.min(16000) / 2), "b".repeat(n.min(16000) % 2)),
+            };
+            if text.len() > 32767 {
+                r.strings = StrKind::TooLong;
+            }
+            if r.ncols < 13 {
+                r.ncols = 19;
+            }
+            match rng.below(4) {
+                0 => r.reading = Some(text),
+                1 => r.norm = Some(text),
+                2 if text.len() <= 300 => r.pos_over = Some((rng.below(6) as usize, text)),
+                _ => {
+                    r.surface = text;
+                    r.mode = Some(0);
+                    r.split_a = vec![];
+                    r.split_b = vec![];
+                }
+            }
+            "string_length_grid"
+        }
+        14 => {
+            // the surface written with an escape
+            let (text, decoded): (String, Option<String>) = match rng.below(8) {
+                0 => ("\\u0000".into(), Some("\u{0}".into())),
+                1 => (format!("{}\\u{{0}}", r.surface), Some(format!("{}\0", r.surface))),
+                2 => (format!("\\u{{00000}}{}", r.surface), Some(format!("\0{}", r.surface))),
+                3 => ("\\u3055\\u{3057}".into(), Some("さし".into())),
+                4 => (format!("{}\\u{{}}", r.surface), Some(format!("{}\\u{{}}", r.surface))),
+                5 => ("\\uDC00".into(), None),
+                6 => (format!("{}\\u0041", r.surface), Some(format!("{}A", r.surface))),
+                _ => ("\\u{1F600}".into(), Some("😀".into())),
+            };
+            match decoded {
+                Some(d) => {
+                    r.surface_text = if d != text { Some(text) } else { None };
+                    r.surface = d;
+                }
+                None => {
+                    r.surface = text;
+                    r.strings = StrKind::BadEscape;
+                }
+            }
+            if r.ncols < 13 {
+                r.ncols = 19;
+            }
+            r.mode = Some(0);
+            r.split_a = vec![];
+            r.split_b = vec![];
+            "escaped_surface_grid"
         }
         _ => {
             r.mode = Some(0);
@@ -1745,7 +1961,7 @@ fn run_raw(sink: &mut Sink, env: &Env, matrix: Option<Vec<u8>>, lexicon: Vec<u8>
 pub fn run(args: &Args) {
     let mut sink = Sink::new("C06", &args.out, &["Model.GuardLang", "Model.Params", "Model.Build", "Model.BuildHistory"], args.seed, &args.tier);
     sink.shard_size = 60;
-    sink.rule("system dictionaries (matrix text nl x nr in 0..6, square and non-square, blank lines / tabs / missing cells) and user dictionaries (against a 4x3 system dictionary) with 1..14 rows incl. compounds with split / word-structure references; structured stream = valid input with exactly one damaged aspect (row arity, left/right/cost from the boundary grid, over-long string / bad escape, dangling or malformed references, split lists / word structure / synonym ids of 127 and 128 items, mode, synonyms, empty surface; matrix: empty text, header arity / sign / non-numeric, coordinates at and beyond the dimension, negative, wrong arity); malformed stream = byte-level damage (truncation, quotes, invalid UTF-8, swaps); directed: 126..300 indexed rows with one surface (the id array of the word-id table: 127 compile and each row is found by lookup, 128+ are an error value), in one lexicon, next to unindexed rows of that surface, for two surfaces, over several read_lexicon calls; every case compiles twice on one builder (second outcome and bytes must equal the first) after resolving twice; other routes = `sudachi build` / `ubuild` and sudachipy.build_system_dic / build_user_dic from the working tree on 1..2500-row inputs (normal: output file = in-process bytes; failing output file at 5 offsets: must report an error) and a sixth of the structured system cases through the command-line tool; fault enumeration = sink accepting exactly k bytes for every k (quick: every k of small dictionaries), each followed by a retry on the same builder into a good sink (Err or the bytes of a fresh build), plus longer histories [fail, fail, one byte per call, good]; non-trivial = compilation failed or more than one row; distinct by generated Coq term");
+    sink.rule("system dictionaries (matrix text nl x nr in 0..6, square and non-square, blank lines / tabs / missing cells) and user dictionaries (against a 4x3 system dictionary) with 1..14 rows incl. compounds with split / word-structure references; structured stream = valid input with exactly one damaged aspect (row arity, left/right/cost from the boundary grid, over-long string / bad escape, dangling or malformed references, split lists / word structure / synonym ids of 127 and 128 items, strings of 126 .. 32768 code units / bytes in reading, normalised form, surface and POS components, surfaces written with \\u escapes (of U+0000, of ordinary characters, of no character, and texts that only look like one), mode, synonyms, empty surface; matrix: empty text, header arity / sign / non-numeric, coordinates at and beyond the dimension, negative, wrong arity); malformed stream = byte-level damage (truncation, quotes, invalid UTF-8, swaps); directed: 126..300 indexed rows with one surface (the id array of the word-id table: 127 compile and each row is found by lookup, 128+ are an error value), in one lexicon, next to unindexed rows of that surface, for two surfaces, over several read_lexicon calls; every case compiles twice on one builder (second outcome and bytes must equal the first) after resolving twice; other routes = `sudachi build` / `ubuild` and sudachipy.build_system_dic / build_user_dic from the working tree on 1..2500-row inputs (normal: output file = in-process bytes; failing output file at 5 offsets: must report an error) and a sixth of the structured system cases through the command-line tool; fault enumeration = sink accepting exactly k bytes for every k (quick: every k of small dictionaries), each followed by a retry on the same builder into a good sink (Err or the bytes of a fresh build), plus longer histories [fail, fail, one byte per call, good]; non-trivial = compilation failed or more than one row; distinct by generated Coq term");
     let dir = args.work.join("c06_res");
     std::fs::create_dir_all(&dir).unwrap();
     std::fs::copy(format!("{}/sudachi/tests/resources/char.def", repo()), dir.join("char.def")).unwrap();
@@ -1873,6 +2089,139 @@ pub fn run(args: &Args) {
             recs.extend(homograph_recs(second, 0, 60, 3, 2, &mut r5));
             let case = Case { base: Base::System(good_matrix(3, 2, &mut Rng::new(3))), recs };
             emit(&mut sink, &env, &mut rng, &case, &format!("directed_homographs_127_and_{}", second));
+        }
+    }
+    // ---- strings at the length boundaries of the format: the length prefix is one byte below 127 and two bytes (high bit
+    // set) from 127 on, 15 bits at most; strings of 126 .. 32767 UTF-16 code units (ASCII, kana, surrogate pairs) in reading,
+    // normalised form, surface + headword (whose BYTE length is written too) and every POS component must read back; one byte
+    // more than MAX_DIC_STRING_LEN is an error value
+    {
+        let two = |user: bool, f: &dyn Fn(&mut Rec)| -> Case {
+            let (nl, nr) = if user { (SYS_NL, SYS_NR) } else { (3, 3) };
+            let mut r8 = Rng::new(88);
+            let mut first = good_rec(0, nl, nr, &mut r8);
+            first.left = Num::Lit(0);
+            first.right = Num::Lit(0);
+            let mut second = good_rec(1, nl, nr, &mut r8);
+            second.left = Num::Lit(0);
+            second.right = Num::Lit(0);
+            second.has_syn = true;
+            second.ncols = 19;
+            f(&mut second);
+            Case { base: if user { Base::User } else { m33(vec![]) }, recs: vec![first, second] }
+        };
+        let units = |kind: usize, n: usize| -> String {
+            match kind {
+                0 => "a".repeat(n),
+                1 => "ア".repeat(n),
+                // surrogate pairs: two code units each
+                _ => format!("{}{}", "𠮷".repeat(n / 2), "b".repeat(n % 2)),
+            }
+        };
+        let bytes_of = |n: usize| -> String { format!("{}{}", "あ".repeat(n / 3), "c".repeat(n % 3)) };
+        let mut cases: Vec<(String, Case)> = vec![];
+        for user in [false, true] {
+            for n in [126usize, 127, 128, 129, 255, 256, 257, 16383, 16384, 32766, 32767, 32768] {
+                if user && !(127..=129).contains(&n) {
+                    continue;
+                }
+                for kind in 0..3 {
+                    let text = units(kind, n);
+                    if kind > 0 && n > 257 && text.len() > 32767 && n != 10923 {
+                        continue; // kana beyond the byte limit: one case below
+                    }
+                    let too_long = text.len() > 32767;
+                    let t = text.clone();
+                    cases.push((format!("directed_string_length_reading_{}", n), two(user, &move |r: &mut Rec| {
+                        r.reading = Some(t.clone());
+                        if too_long { r.strings = StrKind::TooLong; }
+                    })));
+                    let t = text.clone();
+                    cases.push((format!("directed_string_length_normalized_{}", n), two(user, &move |r: &mut Rec| {
+                        r.norm = Some(t.clone());
+                        if too_long { r.strings = StrKind::TooLong; }
+                    })));
+                    let t = text.clone();
+                    cases.push((format!("directed_string_length_surface_{}", n), two(user, &move |r: &mut Rec| {
+                        r.surface = t.clone();
+                        if too_long { r.strings = StrKind::TooLong; }
+                    })));
+                }
+                if n <= 257 {
+                    // a surface of exactly n BYTES (fewer code units)
+                    let t = bytes_of(n);
+                    cases.push((format!("directed_string_length_surface_{}_bytes", n), two(user, &move |r: &mut Rec| r.surface = t.clone())));
+                    for k in 0..6 {
+                        if k > 0 && !(127..=129).contains(&n) {
+                            continue;
+                        }
+                        let t = units(if k % 2 == 0 { 0 } else { 1 }, n);
+                        cases.push((format!("directed_string_length_pos_component_{}", n), two(user, &move |r: &mut Rec| r.pos_over = Some((k, t.clone())))));
+                    }
+                }
+            }
+        }
+        // kana at the byte limit: 10922 x 3 + 1 = 32767 bytes fit, 10923 x 3 = 32769 bytes do not
+        let t = format!("{}d", "ア".repeat(10922));
+        cases.push(("directed_string_length_reading_32767_bytes".to_string(), two(false, &move |r: &mut Rec| r.reading = Some(t.clone()))));
+        cases.push(("directed_string_length_reading_32769_bytes".to_string(), two(false, &|r: &mut Rec| {
+            r.reading = Some("ア".repeat(10923));
+            r.strings = StrKind::TooLong;
+        })));
+        for (shape, c) in &cases {
+            emit(&mut sink, &env, &mut rng, c, shape);
+        }
+    }
+    // ---- surfaces written with escapes: the checks on the surface (empty, U+0000) are about the DECODED value; an escape
+    // that is no character is an error value; a text that only looks like an escape stays as it is
+    {
+        let forms: Vec<(&str, Option<&str>)> = vec![
+            // (CSV text, decoded value; None = not decodable)
+            ("\\u0000", Some("\u{0}")), ("\\u{0}", Some("\u{0}")), ("\\u{00}", Some("\u{0}")), ("\\u{000000}", Some("\u{0}")),
+            ("a\\u0000b", Some("a\u{0}b")), ("あ\\u{0}", Some("あ\u{0}")), ("\\u0000あ", Some("\u{0}あ")), ("あい\\u{0000}うえ", Some("あい\u{0}うえ")),
+            ("\\u3042", Some("あ")), ("\\u{3042}\\u3044", Some("あい")), ("\\u0041bc", Some("Abc")), ("\\u{20BB7}", Some("𠮷")), ("x\\u00e9", Some("xé")),
+            ("\\u{}", Some("\\u{}")), ("\\u{0000000}", Some("\\u{0000000}")), ("\\u00", Some("\\u00")), ("\\u", Some("\\u")), ("\\U0000", Some("\\U0000")),
+            ("\\uD800", None), ("\\u{110000}", None), ("a\\uDFFFb", None),
+        ];
+        for user in [false, true] {
+            for indexed in [true, false] {
+                for (text, decoded) in &forms {
+                    let (nl, nr) = if user { (SYS_NL, SYS_NR) } else { (3, 3) };
+                    let mut r8 = Rng::new(89);
+                    let mut first = good_rec(0, nl, nr, &mut r8);
+                    first.left = Num::Lit(0);
+                    first.right = Num::Lit(0);
+                    let mut second = good_rec(1, nl, nr, &mut r8);
+                    second.left = Num::Lit(if indexed { 0 } else { -1 });
+                    second.right = Num::Lit(if indexed { 0 } else { -1 });
+                    match decoded {
+                        Some(d) => {
+                            debug_assert_eq!(decode_escapes(text).as_deref(), Ok(*d));
+                            second.surface = d.to_string();
+                            if d != text {
+                                second.surface_text = Some(text.to_string());
+                            }
+                        }
+                        None => {
+                            second.surface = text.to_string();
+                            second.strings = StrKind::BadEscape;
+                        }
+                    }
+                    // the offending row first, last and alone
+                    for order in 0..3 {
+                        let recs = match order {
+                            0 => vec![first.clone(), second.clone()],
+                            1 => vec![second.clone(), first.clone()],
+                            _ => vec![second.clone()],
+                        };
+                        if order == 2 && (user || !indexed) {
+                            continue;
+                        }
+                        let case = Case { base: if user { Base::User } else { m33(vec![]) }, recs };
+                        emit(&mut sink, &env, &mut rng, &case, if indexed { "directed_escaped_surface_indexed" } else { "directed_escaped_surface_not_indexed" });
+                    }
+                }
+            }
         }
     }
     // split units that do not spell the headword (known finding)
